@@ -1310,7 +1310,7 @@ func scnHamt(rep *Report, rng *Rng, tier string, outdir string) {
 		ns := names(60)
 		es := mkEntries(ns)
 		for s := 1; s < 40; s += 1 + rng.Intn(3) {
-			add(HamtInput{Mode: "sharded", Fanout: f, Entries: es, Probes: probesFor(ns)[:6], Faults: [][2]int{{s, 1 + s%2}, {s + 7 + rng.Intn(9), 2}}})
+			add(HamtInput{Mode: "sharded", Fanout: f, Entries: es, Probes: probesFor(ns)[:6], Faults: [][2]int{{s, 1 + s%7}, {s + 7 + rng.Intn(9), 2 + s%5}}})
 		}
 	}
 	// auto-selecting builder on both sides of the threshold
@@ -1349,6 +1349,48 @@ func scnHamt(rep *Report, rng *Rng, tier string, outdir string) {
 		key, _ := json.Marshal(in)
 		rep.Count("C13", string(key), len(in.Hostile.Links) > 0, in)
 		rep.Dist("C13", "hostile-shard")
+	}
+	// otherwise well-formed shards with degenerate children of the SAME fanout: a child shard without any link (empty bitfield),
+	// a child holding a single value, a chain of single-child shards — first, in the middle and last among ordinary value links.
+	// (The random generator above rarely makes a child that is hostile in nothing but its emptiness.)
+	for _, fan := range []uint64{8, 16, 256} {
+		for pos := 0; pos < 3; pos++ {
+			for kind := 0; kind < 3; kind++ {
+				u := func(v uint64) *uint64 { return &v }
+				pad := len(fmt.Sprintf("%X", fan-1))
+				mk := func(links []HLink, buckets []int) *HShard {
+					bits := make([]byte, fan/8)
+					for _, b := range buckets {
+						bits[len(bits)-1-b/8] |= 1 << (uint(b) % 8)
+					}
+					return &HShard{Type: 5, Fanout: u(fan), HashType: u(0x22), HasBits: true, Bits: bits, Links: links}
+				}
+				nm := func(b int, suffix string) *string { s := fmt.Sprintf("%0*X", pad, b) + suffix; return &s }
+				var child *HShard
+				switch kind {
+				case 0:
+					child = mk(nil, nil)
+				case 1:
+					child = mk([]HLink{{Name: nm(2, "only")}}, []int{2})
+				case 2:
+					child = mk([]HLink{{Name: nm(1, ""), Child: mk([]HLink{{Name: nm(3, ""), Child: mk(nil, nil)}}, []int{3})}}, []int{1})
+				}
+				var links []HLink
+				var buckets []int
+				for b := 0; b < 3; b++ {
+					if b == pos {
+						links = append(links, HLink{Name: nm(b+1, ""), Child: child})
+					} else {
+						links = append(links, HLink{Name: nm(b+1, fmt.Sprintf("v%d", b))})
+					}
+					buckets = append(buckets, b+1)
+				}
+				in := HamtInput{Mode: "hostile", Hostile: mk(links, buckets), Probes: []string{"v0", "v1", "v2", "only", "", "x"}}
+				runHamtInput(rep, in, cfHost)
+				rep.Count("C13", fmt.Sprint("degenerate-child ", fan, pos, kind), true, in)
+				rep.Dist("C13", "hostile-degenerate-child")
+			}
+		}
 	}
 	// every pair of differing parent/child fanouts, the child holding value links whose names are as long as the
 	// child's prefix plus 0..3 characters (shorter than the parent's prefix for wide parents): whatever the first
@@ -1465,7 +1507,7 @@ func scnHamt(rep *Report, rng *Rng, tier string, outdir string) {
 		}
 		in := HamtInput{Mode: "ref", Fanout: f, History: hist, Probes: probesFor(pool)[:8]}
 		if i%4 == 3 {
-			in.Faults = [][2]int{{1 + rng.Intn(6), 1}}
+			in.Faults = [][2]int{{1 + rng.Intn(6), 1 + (i/4)%7}}
 		}
 		add(in)
 	}
